@@ -984,6 +984,33 @@ func c03InDomain(b *c03Build, e c03Edge, out map[string]*resource.Resource, rule
 	return true, ""
 }
 
+func c03Min(a, b int) int {
+	if a < b {
+		return a
+	}
+	return b
+}
+
+// c03Ambiguity: "original" when two resources of one kind share their original name (in any namespaces),
+// "intermediate" when the original name of one is a LATER name of another of the same kind, "" otherwise.
+func c03Ambiguity(b *c03Build) string {
+	res := ""
+	for _, r1 := range b.Res {
+		for _, r2 := range b.Res {
+			if r1 == r2 || r1.Kind != r2.Kind {
+				continue
+			}
+			if r1.Name == r2.Name {
+				return "original"
+			}
+			if c03NameInHistory(b, r2, r1.Name) {
+				res = "intermediate"
+			}
+		}
+	}
+	return res
+}
+
 // names a resource can have had during the build: original name with the affixes of its layers applied in order
 func c03NameInHistory(b *c03Build, r *c03Res, name string) bool {
 	n := r.Name
@@ -1022,7 +1049,23 @@ func c03Oracles(r *Run, b *c03Build, o c03Outcome, rules []krusty.VerifC03Rule) 
 		return
 	}
 	if o.realCls != ClsOk {
-		r.Count("build_error", c03ErrKind(o.realMsg))
+		kind := c03ErrKind(o.realMsg)
+		r.Count("build_error", kind)
+		if kind == "multiple-referrals" {
+			// the build refuses to choose: expected only when the graph itself is ambiguous
+			amb := c03Ambiguity(b)
+			r.Count("multiple_referrals", amb)
+			switch amb {
+			case "original":
+				// outside the domain of the property (ambiguous original names)
+			case "intermediate":
+				report("refs_follow", "C03/intermediate-name-collision",
+					"build fails with 'multiple possible referrals' although original names are unambiguous: "+
+						"an intermediate name of one resource equals the original name of another of the same kind")
+			default:
+				report("refs_follow", "C03/unexpected-multiple-referrals", "build fails: "+o.realMsg[:c03Min(len(o.realMsg), 400)])
+			}
+		}
 		return
 	}
 	out := c03ByTracer(o.real)
@@ -1112,6 +1155,12 @@ func c03ViolationClass(b *c03Build, e c03Edge, t *c03Res, rules []krusty.VerifC0
 	}
 	if !selects && c03APIVersion[t.Kind] == t.APIVersion {
 		return "C03/rule-row-never-selects:" + t.Kind
+	}
+	// another resource of the referent's kind went through the referenced name on its way
+	for _, r := range b.Res {
+		if r != t && r.Kind == t.Kind && r.Name != e.Old && c03NameInHistory(b, r, e.Old) {
+			return "C03/intermediate-name-collision"
+		}
 	}
 	return "C03/refs_follow"
 }
@@ -1507,7 +1556,27 @@ func loadCorpus03() []*c03Build {
 		return out
 	}
 	_ = json.Unmarshal(data, &out)
+	for _, b := range out {
+		c03RestoreDocs(b)
+	}
 	return out
+}
+
+// c03RestoreDocs re-reads the documents of a build loaded from JSON (the corpus) from its files.
+func c03RestoreDocs(b *c03Build) {
+	for _, r := range b.Res {
+		if r.Doc != nil || r.Generated || r.Layer < 0 || r.Layer >= len(b.Layers) {
+			continue
+		}
+		txt, ok := b.Files[b.Layers[r.Layer].Dir+"/"+r.ID+".yaml"]
+		if !ok {
+			continue
+		}
+		var d map[string]interface{}
+		if syaml.Unmarshal([]byte(txt), &d) == nil {
+			r.Doc = d
+		}
+	}
 }
 
 func replayC03(path string) (bool, string, error) {
